@@ -352,7 +352,8 @@ class IRGenerator:
             elif isinstance(item, AstStructPatch) or isinstance(item, AstUnionPatch):
                 # Handle patches later.
                 base_name = self._get_base_name(item.name, namespace.name)
-                self._patch_data_by_canonical_name[base_name] = (item, namespace)
+                self._patch_data_by_canonical_name.setdefault(
+                    base_name, []).append((item, namespace))
             elif isinstance(item, AstRouteDef):
                 route = self._create_route(env, item)
                 namespace.add_route(route)
@@ -617,7 +618,9 @@ class IRGenerator:
 
     def _merge_patches(self):
         """Injects object patches into their original object definitions."""
-        for patched_item, patched_namespace in self._patch_data_by_canonical_name.values():
+        patches = [patch for patches_of_item in self._patch_data_by_canonical_name.values()
+                   for patch in patches_of_item]
+        for patched_item, patched_namespace in patches:
             patched_item_base_name = self._get_base_name(patched_item.name, patched_namespace.name)
             if patched_item_base_name not in self._item_by_canonical_name:
                 raise InvalidSpec('Patch {} must correspond to a pre-existing data_type.'.format(
